@@ -3,7 +3,7 @@ HARNESSES = {
     'KeptDimension': dict(split={'slice': 2}),
 }
 BOUNDS = {
-    'Fit': 'rounded-real reading: viewBox extents, target sizes in [2^-40, 2^40], origins in [-2^40, 2^40], alignments in [0,1]; tolerance 8*2^-24 relative to the largest of target and result size',
+    'Fit': 'rounded-real reading: viewBox extents and target sizes in [2^-70, 2^70] with aspect ratios within [2^-30, 2^30], origins in [-2^70, 2^70]; every rounded operation carries a no-overflow side obligation, alignments in [0,1]; tolerance 8*2^-24 relative to the largest of target and result size',
     'KeptDimension/Size': 'bit exact, all float32 inputs (target sizes positive and <= 2^40, alignments in [0,1])',
 }
-OUTSIDE = 'overflow/underflow outside the stated ranges; NaN/Inf inputs (the property is about finite positive sizes)'
+OUTSIDE = 'underflow (gradual; absolute error below 2^-149), aspect ratios beyond 2^30; NaN/Inf inputs (the property is about finite positive sizes)'
